@@ -303,6 +303,15 @@ pub fn run(ctx: &Ctx, rep: &mut Report) {
             if k == 17 {
                 outs.push(("align fasta files", cli::run(&["align", files[0], files[1], files[2], "--min-freq", "1"], &dir, None)));
             }
+            // the same samples reaching align through a merged file (a two-sample file merged with a one-sample file)
+            let b2 = cli::run(&["build", "-k", &ks, "-o", "ab", files[0], files[1]], &dir, None);
+            let b1 = cli::run(&["build", "-k", &ks, "-o", "c1", files[2]], &dir, None);
+            let mg = cli::run(&["merge", "ab.skf", "c1.skf", "-o", "m"], &dir, None);
+            if b2.code == 0 && b1.code == 0 && mg.code == 0 {
+                outs.push(("build + merge + align", cli::run(&["align", "m.skf", "--min-freq", "1"], &dir, None)));
+            } else {
+                rep.violate(format!("cli build/merge k={k}"), format!("build/build/merge exit {} {} {}", b2.code, b1.code, mg.code), json!({"cli": "build + merge", "k": k}));
+            }
             for (route, o) in outs {
                 rep.evaluations += 1;
                 rep.nontrivial += 1;
